@@ -800,6 +800,18 @@ pub fn stress_shapes(thorough: bool) -> Vec<(String, Vec<u8>)> {
         b.extend(frame_bytes(&[chunk(tileset_chunk(&ts, 9, &mut None)), simple_layer(0, LayerKind::Tilemap { tileset: 0 }, 1), chunk(cel_chunk(&cel, Some(9), &mut None))], 1));
         v.push(("bomb-tilemap-declared-small".into(), b));
     }
+    // deflate bombs that are refused for an unrelated reason (error paths must not expand them further):
+    // undefined layer, duplicate cel
+    for (name, depth, layer) in [("rgba", 32u16, 5u16), ("gray", 16, 5), ("gray", 16, 0)] {
+        let side = 3072u16;
+        let bpp = (depth / 8) as usize;
+        let px = vec![0u8; side as usize * side as usize * bpp];
+        let cel = image_cel(layer, side, side, px, Some(9));
+        let mut b = header_bytes(1, 4, 4, depth);
+        let chunks = if layer == 0 { vec![simple_layer(0, LayerKind::Image, 1), cel.clone(), cel] } else { vec![simple_layer(0, LayerKind::Image, 1), cel] };
+        b.extend(frame_bytes(&chunks, 1));
+        v.push((format!("bomb-cel-{}-refused-{}", name, if layer == 0 { "duplicate" } else { "undefined-layer" }), b));
+    }
     // a well-formed file: one large, highly compressible cel and many frames linking to it
     // (any per-link copy of the pixel data multiplies memory)
     for (side, nlinks) in [(1024u16, 63usize), (700, 400)] {
